@@ -1321,7 +1321,11 @@ def search(pids, repo, tier='quick', seed=0, log=None):
                     want += inp[pos:m.start()] + expand(rp, m, ng)
                     pos = m.end()
                 want += inp[pos:]
-            if r.get('replace') != want:
+            if r.get('PANIC') or r.get('TIMEOUT'):
+                pid0 = 'C05' if r.get('PANIC') else 'C06'
+                fails.append({'pid': pid0, 'pids': [pid0, 'C15'], 'what': 'replace_all with replacement %r %s' % (rp, 'panics' if r.get('PANIC') else 'does not return'), 'dialect': 'xpath', 'pattern': pat, 'flags': '',
+                              'input': inp, 'expected': want, 'actual': 'no result'})
+            elif r.get('replace') != want:
                 fails.append({'pid': 'C15', 'pids': ['C15', 'C03'], 'what': 'replace_all with replacement %r' % rp, 'dialect': 'xpath', 'pattern': pat, 'flags': '',
                               'input': inp, 'expected': want, 'actual': str(r.get('replace'))})
         common = [c for c in cases if not any(x.k in ('bol', 'eol', 'bref') or (x.k == 'rep' and x.a[3]) or (x.k == 'grp' and not x.a[1]) for x in walk(c.node))
